@@ -36,6 +36,8 @@ def run(ctx, repo):
     ctx.call(R6B.r_generators_fifo, repo)
     ctx.call(R6B.r_multi_representer_set, repo)
     XL.construct_protocol(ctx, repo)
+    ctx.call(R6B.r_deep_iff_setstate, repo)
+    ctx.call(R6B.r_reduce_exact_type, repo)
 
 
 if __name__ == '__main__':
